@@ -63,11 +63,14 @@ let () =
                | ["all"] -> CAllowAll
                | ["off"; o; cr; m; h; e; a] -> COff (bytes_of_hex o, bytes_of_hex cr, bytes_of_hex m, bytes_of_hex h, bytes_of_hex e, bytes_of_hex a)
                | _ -> failwith "cors") in
-      let cfg = { cf_size = n_of_int 10000; cf_cors = c; cf_assets = assets; cf_time = [] } in
-      (match (if kind = "serveL" then process_legacy else process) false cfg fs (bytes_of_hex req) with
-       | Wrote (_, raw) -> Printf.printf "W %s ok\n" (hex_of_bytes raw)
-       | Panicked _ | PanickedLog -> print_endline "PANIC"
-       | Wrote400 -> print_endline "W400")
+      let size = List.fold_left (fun acc o -> if String.length o > 5 && String.sub o 0 5 = "size=" then int_of_string (String.sub o 5 (String.length o - 5)) else acc) 10000 _opts in
+      let cfg = { cf_size = n_of_int size; cf_cors = c; cf_assets = assets; cf_time = []; cf_errmsg = [] } in
+      let app_err = List.mem "app=err" _opts in
+      let out = (if app_err then process_with (fun _ -> SErr (n_of_int 400)) cfg (bytes_of_hex req)
+                 else (if kind = "serveL" then process_legacy else process) cfg fs (bytes_of_hex req)) in
+      (match out with
+       | Wrote (_, raw, ok) -> Printf.printf "W %s %s\n" (hex_of_bytes raw) (if ok || kind = "serveL" then "ok" else "err")
+       | Panicked _ -> print_endline "PANIC")
     | ["mp"; bd; data] ->
       (match multipart_parse (bytes_of_hex data) (bytes_of_hex bd) with
        | MOk ps -> print_endline ("OK " ^ String.concat "|" (List.map (fun p -> String.concat ";" (List.map (fun h -> hex_of_bytes h.hname ^ ":" ^ hex_of_bytes h.hvalue) p.p_headers) ^ "=" ^ hex_of_bytes p.p_body) ps))
